@@ -246,8 +246,9 @@ def render_charges(rng, chs, ccy, sh="".join):
     if not chs and rng.random() < 0.8:
         return ""
     blocks = []
-    if chs and rng.random() < 0.5:
-        blocks.append('<TtlChrgsAndTaxAmt Ccy="%s">%s</TtlChrgsAndTaxAmt>' % (ccy, "1"))
+    if rng.random() < 0.5:
+        # the total is informational (also when it is all the block holds, as in Wise's statements): charges are booked per <Rcrd>
+        blocks.append('<TtlChrgsAndTaxAmt Ccy="%s">%s</TtlChrgsAndTaxAmt>' % (ccy, rng.choice(["1", "2.16", "0", "0.00"])))
     run = []
     for ch in chs:
         pieces = ['<Amt Ccy="%s">%s</Amt>' % (ccy, amt_text(rng, ch["amount"])), "<CdtDbtInd>%s</CdtDbtInd>" % ("CRDT" if ch["cd"] == "C" else "DBIT")]
